@@ -1,4 +1,5 @@
 import GohbaseVerif.Gen.Selects
+import GohbaseVerif.Gen.Exits
 /-!
 # C13 — Cancellation is honoured promptly in every state
 
@@ -279,5 +280,16 @@ theorem sendrpc_cancel_in_progress_attempt :
 example : iterationShapes.length = 8 := by decide
 /-- negative: an iteration made of an attempt with no wait behind it would complete and loop -/
 example : runCancelled [.attempt] 0 = .completed 1 := by decide
+
+/-- Regenerated from rpc.go (`findClients`, fix a0b19e4): the region of a batched call is located
+under a context `rctx` derived from the batch context by `context.WithCancel(ctx)` *and* cancelled
+by `context.AfterFunc(rpc.Context(), cancel)` — i.e. it ends when the batch context or the call's
+own context ends. Every wait inside `getRegionAndClientForRPC` selects on the context it is given
+(`caller_waits_cancellable`), so a batched call whose own context ends while its region is being
+located is released. (`batch_wait_watches_call_context` covers the wait for the response.) -/
+theorem batch_location_watches_call_context_in_source :
+    GV.Gen.Exits.findClientsLocateCtx = ["rctx"] ∧
+    GV.Gen.Exits.findClientsWithCancel = ["rctx, cancel = WithCancel(ctx)"] ∧
+    GV.Gen.Exits.findClientsAfterFunc = ["rpc.Context(), cancel"] := by decide
 
 end GV.Cancel
